@@ -39,6 +39,7 @@ class _State:
     dirfds = None        # fd -> path for everything opened through os.open
     stdin_reads = 0
     full_trace = False
+    ro_dirs = None       # {realpath of a directory: "ro" | "append"}: its entries cannot be changed
 
 
 S = _State()
@@ -102,6 +103,68 @@ def _gate(name, paths):
             return
 
 
+_RO_REMOVE = ("unlink", "remove", "rmdir")
+_RO_CREATE = ("mkdir", "symlink", "mkfifo", "mknod")
+
+
+def _real_parent(p):
+    S.armed = False
+    try:
+        d, _, b = p.rstrip("/").rpartition("/")
+        return os.path.realpath(d or "/")
+    finally:
+        S.armed = True
+
+
+def _ro_check(name, paths, a):
+    """A directory listed in plan['ro_dirs'] behaves like one the user may not write ("ro":
+    EACCES on adding or removing entries) or like an append-only one ("append": EPERM on
+    removing entries).  Cross-device renames are left to the kernel (EXDEV comes first)."""
+    def mode_of(p):
+        return S.ro_dirs.get(_real_parent(p)) if isinstance(p, str) else None
+
+    def itself(p):
+        S.armed = False
+        try:
+            return S.ro_dirs.get(os.path.realpath(p)) if os.path.isdir(p) and \
+                not os.path.islink(p) else None
+        finally:
+            S.armed = True
+    bad = None
+    if name in _RO_REMOVE:
+        bad = mode_of(paths[0])
+    elif name in _RO_CREATE:
+        bad = mode_of(paths[0]) == "ro" and "ro"
+    elif name == "link":
+        bad = mode_of(paths[1]) == "ro" and "ro"
+    elif name in ("rename", "replace"):
+        src, dst = paths[0], paths[1]
+        S.armed = False
+        try:
+            try:
+                xdev = os.lstat(_real_parent(src)).st_dev != os.lstat(_real_parent(dst)).st_dev
+            except OSError:
+                xdev = False
+        finally:
+            S.armed = True
+        if not xdev:
+            bad = mode_of(src) or itself(src) or (mode_of(dst) == "ro" and "ro")
+    elif name in ("open", "fopen"):
+        fl = paths[1]
+        creat = (fl & os.O_CREAT) if isinstance(fl, int) else any(c in fl for c in "wax")
+        if creat and mode_of(paths[0]) == "ro":
+            S.armed = False
+            try:
+                if not os.path.lexists(paths[0]):
+                    bad = "ro"
+            finally:
+                S.armed = True
+    if bad:
+        e = _errno.EACCES if bad == "ro" else _errno.EPERM
+        S.trace.append([S.n_all, 0, name, paths, "RO %d" % e])
+        raise OSError(e, os.strerror(e), paths[0])
+
+
 def _op(name, mut, orig, paths, a, kw):
     S.n_all += 1
     if mut:
@@ -118,6 +181,8 @@ def _op(name, mut, orig, paths, a, kw):
         raise KeyboardInterrupt()
     if S.gate is not None:
         _gate(name, paths)
+    if S.ro_dirs and mut:
+        _ro_check(name, paths, a)
     for f in S.faults:
         hit = False
         if f.get("k") is not None and f["k"] == S.n_all:
@@ -303,6 +368,7 @@ def arm(plan=None, trace_fd=None):
     S.gate = plan.get("gate")
     S.perm_seed = plan.get("perm_seed")
     S.full_trace = bool(plan.get("full_trace"))
+    S.ro_dirs = dict(plan.get("ro_dirs") or {}) or None
     S.wfds = set()
     S.dirfds = {}
     S.stdin_reads = 0
